@@ -253,6 +253,7 @@ POOL = [
     '$.items.replace(0, 5)', '$hostSet.union($.items.toSet())',
     '$.nested.a.b', '$.nested.a.set(b, 0)', '$.items.memorize().len()',
     '$.items.distinct().orderBy($)', 'dict($.items.select([$, $]))',
+    '$', '$1', '[$, 1]', 'coalesce($, none)',
 ]
 DOCS = [
     {'items': [3, 1, 2], 'd': {'k': [1], 'j': 2}, 'nested': {'a': {'b': [1]}}},
@@ -291,7 +292,37 @@ def run_history(run, case):
     reuse = 0
     bad = None
     for step in case['steps']:
-        si, di, raw = step
+        si, di, raw = step[:3]
+        ctxmode = step[3] if len(step) > 3 else 0
+        if ctxmode:
+            # evaluation without a context of the host's (yaql builds its
+            # own), with data (1) or without (2): compare with the same
+            # statement evaluated in an explicitly fresh context
+            import yaql as _yaql
+            text = POOL[si % len(POOL)]
+            key = (si % len(POOL), bool(raw))
+            if key not in parsed:
+                parsed[key] = engs[not raw](text)
+            kw = {} if ctxmode == 2 else {
+                'data': mutable(DOCS[di % len(DOCS)])}
+            kw2 = {} if ctxmode == 2 else {
+                'data': mutable(DOCS[di % len(DOCS)])}
+
+            def _ev(**k):
+                try:
+                    return ('ok', common.snapshot(parsed[key].evaluate(**k)))
+                except Exception as e:   # noqa
+                    return ('exc', type(e).__name__)
+            got = _ev(**kw)
+            exp = _ev(context=_yaql.create_context(), **kw2)
+            if got != exp:
+                bad = ('context-less-evaluation-depends-on-history',
+                       '%s evaluated without a context (%s data): %r; in a '
+                       'fresh context: %r' % (
+                           text, 'without' if ctxmode == 2 else 'with',
+                           got, exp), text)
+                break
+            continue
         text = POOL[si % len(POOL)]
         key = (si % len(POOL), bool(raw))
         if key not in parsed:
@@ -348,6 +379,12 @@ def make_machine(run):
               di=st.integers(0, len(DOCS) - 1), raw=st.booleans())
         def evaluate(self, si, di, raw):
             self.steps.append([si, di, raw])
+
+        @rule(si=st.sampled_from([i for i, t in enumerate(POOL)
+                                  if 'host' not in t]),
+              di=st.integers(0, len(DOCS) - 1), mode=st.integers(1, 2))
+        def evaluate_without_context(self, si, di, mode):
+            self.steps.append([si, di, False, mode])
 
         @rule()
         def repeat_last(self):
